@@ -5,6 +5,7 @@ import GoblVerif.Proofs.TaxId
 
 namespace GoblVerif.TaxId
 open GoblVerif.TaxId.Norm
+open GoblVerif.Spec.TaxId (stripCodes endsWith chSuffixes)
 
 theorem toUpper_toNat (c : Char) :
     c.toUpper.toNat = if 97 ≤ c.toNat ∧ c.toNat ≤ 122 then c.toNat - 32 else c.toNat := by
@@ -94,9 +95,148 @@ theorem foldl_trim_clean (alts : List Str) (s : Str) (h : s.all isAZ09 = true) :
   | nil => exact h
   | cons a as ih => exact ih _ (trimPrefix_clean a s h)
 
+/-! ### the prefix loop of `tax.NormalizeIdentity` -/
+
+theorem trimPrefix_eq_self_iff (p s : Str) : trimPrefix p s = s ↔ (p = [] ∨ p.isPrefixOf s = false) := by
+  unfold trimPrefix
+  constructor
+  · intro h
+    split at h
+    · rename_i hp
+      left
+      obtain ⟨t, rfl⟩ := List.isPrefixOf_iff_prefix.mp hp
+      have := congrArg List.length h
+      simp only [List.length_drop, List.length_append] at this
+      exact List.eq_nil_of_length_eq_zero (by omega)
+    · rename_i hp; right; exact Bool.eq_false_iff.mpr hp
+  · rintro (rfl | h)
+    · simp
+    · simp [h]
+
+theorem trimPrefix_fixed_of_prefix (p r m : Str) (hr : r <+: m) (h : trimPrefix p m = m) : trimPrefix p r = r := by
+  rw [trimPrefix_eq_self_iff] at h ⊢
+  rcases h with h | h
+  · exact Or.inl h
+  · right
+    cases hp : p.isPrefixOf r with
+    | false => rfl
+    | true =>
+      have : p <+: m := (List.isPrefixOf_iff_prefix.mp hp).trans hr
+      rw [List.isPrefixOf_iff_prefix.mpr this] at h
+      exact absurd h (by simp)
+
+theorem trimPrefix_length_le (p s : Str) : (trimPrefix p s).length ≤ s.length := by
+  unfold trimPrefix; split <;> simp
+
+theorem trimPrefix_eq_of_length (p s : Str) (h : s.length ≤ (trimPrefix p s).length) : trimPrefix p s = s := by
+  unfold trimPrefix at h ⊢
+  split
+  · rename_i hp
+    rw [if_pos hp] at h
+    obtain ⟨t, rfl⟩ := List.isPrefixOf_iff_prefix.mp hp
+    simp only [List.length_drop, List.length_append] at h
+    have : p = [] := List.eq_nil_of_length_eq_zero (by omega)
+    subst this; simp
+  · rfl
+
+theorem foldl_trim_length_le (alts : List Str) (s : Str) :
+    (alts.foldl (fun c a => trimPrefix a c) s).length ≤ s.length := by
+  induction alts generalizing s with
+  | nil => simp
+  | cons a as ih => exact Nat.le_trans (ih _) (trimPrefix_length_le a s)
+
+theorem foldl_trim_eq_of_length (alts : List Str) (s : Str)
+    (h : s.length ≤ (alts.foldl (fun c a => trimPrefix a c) s).length) :
+    ∀ a ∈ alts, trimPrefix a s = s := by
+  induction alts generalizing s with
+  | nil => simp
+  | cons a as ih =>
+    simp only [List.foldl_cons] at h
+    have h1 := foldl_trim_length_le as (trimPrefix a s)
+    have h2 := trimPrefix_length_le a s
+    have ha : trimPrefix a s = s := trimPrefix_eq_of_length a s (by omega)
+    rw [ha] at h
+    intro b hb
+    simp only [List.mem_cons] at hb
+    rcases hb with rfl | hb
+    · exact ha
+    · exact ih s h b hb
+
+theorem trimPass_length_le (country : Str) (alts : List Str) (s : Str) :
+    (trimPass country alts s).length ≤ s.length :=
+  Nat.le_trans (foldl_trim_length_le _ _) (trimPrefix_length_le _ _)
+
+/-- a pass that does not shorten the code changes nothing, step by step -/
+theorem trimPass_steps_of_length (country : Str) (alts : List Str) (s : Str)
+    (h : s.length ≤ (trimPass country alts s).length) :
+    trimPrefix country s = s ∧ ∀ a ∈ alts, trimPrefix a s = s := by
+  unfold trimPass at h
+  have h1 := foldl_trim_length_le alts (trimPrefix country s)
+  have h2 := trimPrefix_length_le country s
+  have hc : trimPrefix country s = s := trimPrefix_eq_of_length country s (by omega)
+  rw [hc] at h
+  exact ⟨hc, foldl_trim_eq_of_length alts s h⟩
+
+theorem foldl_trim_fixed' (alts : List Str) (r : Str) (h : ∀ a ∈ alts, trimPrefix a r = r) :
+    alts.foldl (fun c a => trimPrefix a c) r = r := by
+  induction alts with
+  | nil => rfl
+  | cons a as ih =>
+    simp only [List.foldl_cons, h a (by simp)]
+    exact ih (fun b hb => h b (by simp [hb]))
+
+theorem trimPass_fixed_iff (country : Str) (alts : List Str) (r : Str) :
+    trimPass country alts r = r ↔ (trimPrefix country r = r ∧ ∀ a ∈ alts, trimPrefix a r = r) := by
+  constructor
+  · intro h; exact trimPass_steps_of_length country alts r (by rw [h])
+  · intro ⟨h0, h⟩; unfold trimPass; rw [h0]; exact foldl_trim_fixed' alts r h
+
+theorem trimPass_lt_of_ne (country : Str) (alts : List Str) (s : Str) (h : trimPass country alts s ≠ s) :
+    (trimPass country alts s).length < s.length := by
+  by_contra hn
+  exact h ((trimPass_fixed_iff country alts s).mpr (trimPass_steps_of_length country alts s (by omega)))
+
+/-- the fuel `length + 1` always reaches the `break`: the result of the loop is left alone by a further pass -/
+theorem trimLoop_stable (country : Str) (alts : List Str) (fuel : Nat) (s : Str) (h : s.length < fuel) :
+    trimPass country alts (trimLoop country alts fuel s) = trimLoop country alts fuel s := by
+  induction fuel generalizing s with
+  | zero => omega
+  | succ f ih =>
+    simp only [trimLoop]
+    split
+    · rename_i he; simpa using he
+    · rename_i he
+      have hne : trimPass country alts s ≠ s := by simpa using he
+      exact ih _ (by have := trimPass_lt_of_ne country alts s hne; omega)
+
+theorem trimLoop_of_fixed (country : Str) (alts : List Str) (fuel : Nat) (r : Str)
+    (h : trimPass country alts r = r) : trimLoop country alts fuel r = r := by
+  cases fuel with
+  | zero => rfl
+  | succ f => simp [trimLoop, h]
+
+theorem trimPass_clean (country : Str) (alts : List Str) (s : Str) (h : s.all isAZ09 = true) :
+    (trimPass country alts s).all isAZ09 = true :=
+  foldl_trim_clean _ _ (trimPrefix_clean _ _ h)
+
+theorem trimLoop_clean (country : Str) (alts : List Str) (fuel : Nat) (s : Str) (h : s.all isAZ09 = true) :
+    (trimLoop country alts fuel s).all isAZ09 = true := by
+  induction fuel generalizing s with
+  | zero => exact h
+  | succ f ih =>
+    simp only [trimLoop]
+    split
+    · exact h
+    · exact ih _ (trimPass_clean country alts s h)
+
 theorem normalizeIdentity_clean (country : Str) (alts : List Str) (code : Str) :
     (normalizeIdentity country alts code).all isAZ09 = true :=
-  foldl_trim_clean _ _ (trimPrefix_clean _ _ (stripBad_clean _))
+  trimLoop_clean _ _ _ _ (stripBad_clean _)
+
+/-- the result of `NormalizeIdentity` is left alone by a further pass of its loop -/
+theorem normalizeIdentity_stable (country : Str) (alts : List Str) (code : Str) :
+    trimPass country alts (normalizeIdentity country alts code) = normalizeIdentity country alts code :=
+  trimLoop_stable country alts _ _ (Nat.lt_succ_self _)
 
 theorem trimPrefix_of_not_prefix (p s : Str) (h : p.isPrefixOf s = false) : trimPrefix p s = s := by
   simp [trimPrefix, h]
@@ -143,34 +283,229 @@ theorem filter_isDig_foldl_trim (alts : List Str) (s : Str) (h : ∀ a ∈ alts,
     simp only [List.foldl_cons]
     rw [ih _ (fun b hb => h b (by simp [hb])), filter_isDig_trimPrefix a s (h a (by simp))]
 
-theorem hasSuffix_split (suf s : Str) (h : hasSuffix suf s = true) : ∃ t, s = t ++ suf := by
-  unfold hasSuffix at h
+theorem filter_isDig_trimPass (country : Str) (alts : List Str) (s : Str)
+    (hc : country.filter isDig = []) (ha : ∀ a ∈ alts, a.filter isDig = []) :
+    (trimPass country alts s).filter isDig = s.filter isDig := by
+  unfold trimPass
+  rw [filter_isDig_foldl_trim alts _ ha, filter_isDig_trimPrefix country s hc]
+
+theorem filter_isDig_trimLoop (country : Str) (alts : List Str) (fuel : Nat) (s : Str)
+    (hc : country.filter isDig = []) (ha : ∀ a ∈ alts, a.filter isDig = []) :
+    (trimLoop country alts fuel s).filter isDig = s.filter isDig := by
+  induction fuel generalizing s with
+  | zero => rfl
+  | succ f ih =>
+    simp only [trimLoop]
+    split
+    · rfl
+    · rw [ih, filter_isDig_trimPass country alts s hc ha]
+
+theorem filter_isDig_normalizeIdentity (country : Str) (alts : List Str) (code : Str)
+    (hc : country.filter isDig = []) (ha : ∀ a ∈ alts, a.filter isDig = []) :
+    (normalizeIdentity country alts code).filter isDig = code.filter isDig := by
+  unfold normalizeIdentity
+  rw [filter_isDig_trimLoop _ _ _ _ hc ha, filter_isDig_stripBad, filter_isDig_upper]
+
+/-! ### two-letter codes: the loop removes exactly the leading run of codes -/
+
+/-! two-letter codes: the loop = removal of the leading run of codes -/
+
+theorem isPrefixOf_two (a b : Char) (s : Str) :
+    [a, b].isPrefixOf s = true ↔ ∃ rest, s = a :: b :: rest := by
+  constructor
+  · intro h
+    obtain ⟨t, rfl⟩ := List.isPrefixOf_iff_prefix.mp h
+    exact ⟨t, rfl⟩
+  · rintro ⟨rest, rfl⟩; simp
+
+theorem stripCodes_trimPrefix (codes : List Str) (p : Str) (hp : p ∈ codes) (hl : p.length = 2) (s : Str) :
+    stripCodes codes (trimPrefix p s) = stripCodes codes s := by
+  match p, hl with
+  | [a, b], _ =>
+    unfold trimPrefix
+    split
+    · rename_i h
+      obtain ⟨rest, rfl⟩ := (isPrefixOf_two a b s).mp h
+      simp [stripCodes, hp]
+    · rfl
+
+theorem stripCodes_foldl (codes alts : List Str) (ha : ∀ a ∈ alts, a ∈ codes ∧ a.length = 2) (s : Str) :
+    stripCodes codes (alts.foldl (fun c a => trimPrefix a c) s) = stripCodes codes s := by
+  induction alts generalizing s with
+  | nil => rfl
+  | cons a as ih =>
+    simp only [List.foldl_cons]
+    rw [ih (fun b hb => ha b (by simp [hb])), stripCodes_trimPrefix codes a (ha a (by simp)).1 (ha a (by simp)).2]
+
+theorem stripCodes_trimPass (country : Str) (alts : List Str) (h : ∀ p ∈ country :: alts, p.length = 2) (s : Str) :
+    stripCodes (country :: alts) (trimPass country alts s) = stripCodes (country :: alts) s := by
+  unfold trimPass
+  rw [stripCodes_foldl _ alts (fun a ha => ⟨by simp [ha], h a (by simp [ha])⟩),
+    stripCodes_trimPrefix _ country (by simp) (h country (by simp))]
+
+theorem stripCodes_trimLoop (country : Str) (alts : List Str) (h : ∀ p ∈ country :: alts, p.length = 2) (fuel : Nat) (s : Str) :
+    stripCodes (country :: alts) (trimLoop country alts fuel s) = stripCodes (country :: alts) s := by
+  induction fuel generalizing s with
+  | zero => rfl
+  | succ f ih =>
+    simp only [trimLoop]
+    split
+    · rfl
+    · rw [ih, stripCodes_trimPass country alts h]
+
+theorem stripCodes_of_fixed (codes : List Str) (r : Str) (h : ∀ p ∈ codes, trimPrefix p r = r) :
+    stripCodes codes r = r := by
+  match r with
+  | [] => rfl
+  | [_] => rfl
+  | a :: b :: rest =>
+    simp only [stripCodes]
+    split
+    · rename_i hc
+      have hm : [a, b] ∈ codes := by simpa using hc
+      have := h _ hm
+      simp [trimPrefix] at this
+      have := congrArg List.length this
+      simp at this
+      omega
+    · rfl
+
+theorem normalizeIdentity_eq_stripCodes (country : Str) (alts : List Str) (code : Str)
+    (h : ∀ p ∈ country :: alts, p.length = 2) :
+    normalizeIdentity country alts code = stripCodes (country :: alts) (stripBad (upper code)) := by
+  have hs := normalizeIdentity_stable country alts code
+  rw [trimPass_fixed_iff] at hs
+  have hfix := stripCodes_of_fixed (country :: alts) (normalizeIdentity country alts code) (by
+    intro p hp
+    simp only [List.mem_cons] at hp
+    rcases hp with rfl | hp
+    · exact hs.1
+    · exact hs.2 p hp)
+  rw [← hfix]
+  exact stripCodes_trimLoop country alts h _ _
+
+/-! ### the CH suffix pattern `(MWST|TVA|IVA)+$` -/
+
+/-! CH suffixes -/
+
+theorem chSuffixStar_append (a b : Str) (ha : chSuffixStar a = true) (hb : chSuffixStar b = true) :
+    chSuffixStar (a ++ b) = true := by
+  fun_induction chSuffixStar a with
+  | case1 => simpa using hb
+  | case2 r ih => simpa [chSuffixStar] using ih ha
+  | case3 r ih => simpa [chSuffixStar] using ih ha
+  | case4 r ih => simpa [chSuffixStar] using ih ha
+  | case5 => simp at ha
+
+/-- a run of suffixes is a concatenation of suffixes from the list -/
+theorem chSuffixStar_parts (t : Str) (h : chSuffixStar t = true) :
+    ∃ parts : List Str, (∀ x ∈ parts, x ∈ chSuffixes) ∧ t = parts.flatten := by
+  fun_induction chSuffixStar t with
+  | case1 => exact ⟨[], by simp, rfl⟩
+  | case2 r ih => obtain ⟨ps, h1, h2⟩ := ih h; exact ⟨['M','W','S','T'] :: ps, by simpa [chSuffixes] using h1, by simp [h2]⟩
+  | case3 r ih => obtain ⟨ps, h1, h2⟩ := ih h; exact ⟨['T','V','A'] :: ps, by simpa [chSuffixes] using h1, by simp [h2]⟩
+  | case4 r ih => obtain ⟨ps, h1, h2⟩ := ih h; exact ⟨['I','V','A'] :: ps, by simpa [chSuffixes] using h1, by simp [h2]⟩
+  | case5 => simp at h
+
+/-- what is removed is a run of suffixes -/
+theorem chStripSuffix_split (s : Str) : ∃ t, s = chStripSuffix s ++ t ∧ chSuffixStar t = true := by
+  induction s with
+  | nil => exact ⟨[], rfl, rfl⟩
+  | cons c cs ih =>
+    simp only [chStripSuffix]
+    split
+    · rename_i h
+      simp only [chSuffixPlus, Bool.and_eq_true] at h
+      exact ⟨c :: cs, rfl, h.2⟩
+    · obtain ⟨t, h1, h2⟩ := ih
+      exact ⟨t, by simp [← h1], h2⟩
+
+theorem chStripSuffix_prefix (s : Str) : chStripSuffix s <+: s := by
+  obtain ⟨t, h, _⟩ := chStripSuffix_split s
+  exact ⟨t, h.symm⟩
+
+theorem chSuffixPlus_append (a b : Str) (ha : chSuffixPlus a = true) (hb : chSuffixStar b = true) :
+    chSuffixPlus (a ++ b) = true := by
+  simp only [chSuffixPlus, Bool.and_eq_true] at ha ⊢
+  refine ⟨?_, chSuffixStar_append a b ha.2 hb⟩
+  cases a with
+  | nil => simp at ha
+  | cons x xs => simp
+
+theorem chStripSuffix_idem (s : Str) : chStripSuffix (chStripSuffix s) = chStripSuffix s := by
+  induction s with
+  | nil => rfl
+  | cons c cs ih =>
+    simp only [chStripSuffix]
+    split
+    · rfl
+    · rename_i hn
+      simp only [chStripSuffix]
+      split
+      · rename_i hp
+        exfalso
+        obtain ⟨t, h1, h2⟩ := chStripSuffix_split cs
+        have := chSuffixPlus_append _ t hp h2
+        simp only [List.cons_append, ← h1] at this
+        exact hn this
+      · rw [ih]
+
+/-- cutting in front of a non-empty run of suffixes removes at least that run -/
+theorem chStripSuffix_length_append (u t : Str) (ht : chSuffixPlus t = true) :
+    (chStripSuffix (u ++ t)).length ≤ u.length := by
+  induction u with
+  | nil =>
+    cases t with
+    | nil => simp [chSuffixPlus] at ht
+    | cons c cs => simp [chStripSuffix, ht]
+  | cons c us ih =>
+    simp only [List.cons_append, chStripSuffix]
+    split
+    · simp
+    · simp only [List.length_cons]; omega
+
+theorem endsWith_split (suf s : Str) (h : endsWith suf s = true) : ∃ t, s = t ++ suf := by
+  unfold endsWith at h
   obtain ⟨u, hu⟩ := List.isPrefixOf_iff_prefix.mp h
   refine ⟨u.reverse, ?_⟩
   have := congrArg List.reverse hu
   simpa using this.symm
 
-theorem take_append_len (t suf : Str) : (t ++ suf).take ((t ++ suf).length - suf.length) = t := by
-  simp
+/-- the result ends with none of the suffixes -/
+theorem chStripSuffix_no_suffix (s x : Str) (hx : x ∈ chSuffixes) : endsWith x (chStripSuffix s) = false := by
+  cases h : endsWith x (chStripSuffix s) with
+  | false => rfl
+  | true =>
+    exfalso
+    obtain ⟨u, hu⟩ := endsWith_split _ _ h
+    have hp : chSuffixPlus x = true := by
+      simp only [chSuffixes, List.mem_cons, List.not_mem_nil, or_false] at hx
+      rcases hx with rfl | rfl | rfl <;> decide
+    have h1 := chStripSuffix_length_append u x hp
+    rw [← hu, chStripSuffix_idem, hu] at h1
+    have : 0 < x.length := by
+      simp only [chSuffixes, List.mem_cons, List.not_mem_nil, or_false] at hx
+      rcases hx with rfl | rfl | rfl <;> simp
+    simp only [List.length_append] at h1
+    omega
+
+theorem chStripSuffix_clean (s : Str) (h : s.all isAZ09 = true) : (chStripSuffix s).all isAZ09 = true := by
+  rw [List.all_eq_true] at h ⊢
+  intro x hx
+  exact h x ((chStripSuffix_prefix s).subset hx)
+
+theorem chSuffixStar_no_digits (t : Str) (h : chSuffixStar t = true) : t.filter isDig = [] := by
+  fun_induction chSuffixStar t with
+  | case1 => rfl
+  | case2 r ih => simpa [isDig] using ih h
+  | case3 r ih => simpa [isDig] using ih h
+  | case4 r ih => simpa [isDig] using ih h
+  | case5 => simp at h
 
 theorem filter_isDig_chStripSuffix (s : Str) : (chStripSuffix s).filter isDig = s.filter isDig := by
-  unfold chStripSuffix
-  split
-  · rename_i h; obtain ⟨t, rfl⟩ := hasSuffix_split _ _ h
-    have := take_append_len t ['M','W','S','T']
-    simp only [List.length_cons, List.length_nil] at this
-    rw [this]; simp [isDig]
-  · split
-    · rename_i h; obtain ⟨t, rfl⟩ := hasSuffix_split _ _ h
-      have := take_append_len t ['T','V','A']
-      simp only [List.length_cons, List.length_nil] at this
-      rw [this]; simp [isDig]
-    · split
-      · rename_i h; obtain ⟨t, rfl⟩ := hasSuffix_split _ _ h
-        have := take_append_len t ['I','V','A']
-        simp only [List.length_cons, List.length_nil] at this
-        rw [this]; simp [isDig]
-      · rfl
+  obtain ⟨t, h1, h2⟩ := chStripSuffix_split s
+  conv => rhs; rw [h1]
+  simp [chSuffixStar_no_digits t h2]
 
 theorem mxUpper_isDig (c : Char) : isDig (mxUpper c) = isDig c := by
   unfold mxUpper
@@ -231,15 +566,12 @@ theorem take_clean (s : Str) (n : Nat) (h : s.all isAZ09 = true) : (s.take n).al
   rw [List.all_eq_true] at h ⊢
   intro x hx; exact h x (List.mem_of_mem_take hx)
 
-theorem chStripSuffix_clean (s : Str) (h : s.all isAZ09 = true) : (chStripSuffix s).all isAZ09 = true := by
-  unfold chStripSuffix
-  repeat' split
-  all_goals first | exact take_clean _ _ h | exact h
-
-theorem normalizeIdentity_fixed (country : Str) (r : Str) (hc : r.all isAZ09 = true)
-    (h0 : country.isPrefixOf r = false) : normalizeIdentity country [] r = r := by
+/-- a clean code that a pass of the loop leaves alone is a fixed point of `NormalizeIdentity` -/
+theorem normalizeIdentity_fixed (country : Str) (alts : List Str) (r : Str) (hc : r.all isAZ09 = true)
+    (h : trimPass country alts r = r) : normalizeIdentity country alts r = r := by
   unfold normalizeIdentity
-  rw [clean_fixed r hc, trimPrefix_of_not_prefix country r h0]; rfl
+  rw [clean_fixed r hc]
+  exact trimLoop_of_fixed country alts _ r h
 
 theorem digitChar_clean (k : Nat) (h : k ≤ 9) : isAZ09 (digitChar k) = true := by
   simp [isAZ09, isDig, digitChar_toNat k h]; omega
